@@ -123,6 +123,9 @@ def r2(ctx: Ctx) -> None:
             continue
         n += 1
         lps = [l for l in loops(b.path) if l.iter == ex[0].term]
+        telling = [l for l in lps if any(e.name == "executed_order" for bp in l.paths for e in calls(bp))]
+        if len(lps) > 1 and len(telling) == 1:
+            lps = telling  # the other passes over the fills settle them (a folded-in routine of the simulator)
         zipped = [l for l in loops(b.path) if l.iter is not None and l.iter[0] == "call" and key(l.iter[1]) == "zip" and l.iter[2] and l.iter[2][0] == ex[0].term]
         if not lps and len(zipped) == 1:
             # for log, (buyer, seller) in zip(logs, <pairs returned by the holdings update>)
@@ -168,7 +171,7 @@ def r2(ctx: Ctx) -> None:
                         ctx.unrec(f, dfr[0][0].node, f"{b.phase} {b.kind}: buyer and seller of each fill are told once each", "callbacks are deferred in closures; when they run is not modelled")
                     continue
                 via = sorted({x for e in cbs if e.recv is not None for o_ in ("buy_agent_id", "sell_agent_id") for x in _other_fields(e.recv, ("attr", el, o_)) if not x.endswith("agent_id")})
-                if not ok and via and len(cbs) == 2 and not bp.conds:
+                if not ok and via and 1 <= len(cbs) <= 2:
                     ctx.unrec(f, l.node, f"{b.phase} {b.kind}: buyer and seller of each fill are told once each", f"the agents are found through other fields of the record ({', '.join(via)}): whether that leads to the buyer and the seller is not decided", "; ".join(short(e.recv)[:80] for e in cbs))
                     continue
                 ctx.check(ok, f, l.node, f"{b.phase} {b.kind}: buyer and seller of each fill are told once each", "id2agent[log.buy_agent_id].executed_order(log), id2agent[log.sell_agent_id].executed_order(log)",
